@@ -145,8 +145,10 @@ ExpandC(cache, inIdx, expIdx) ==
       SetC(r, e) == [r EXCEPT !.entries = [i \in DOMAIN r.entries |-> IF i \in cs THEN e ELSE r.entries[i]]]
       rowA == SetC(row, Num0)
       blank == [rowA EXCEPT !.upd = FALSE,
+                  \* (a column can be the `<name>_out` column of a bidirectional signal and at the same time the
+                  \* column of an input that is itself called `<name>_out`: such an entry is still driven)
                   !.entries = [i \in DOMAIN rowA.entries |->
-                      IF IsExpectedCol(expIdx, i) THEN [k |-> "X"] ELSE rowA.entries[i]]]
+                      IF IsExpectedCol(expIdx, i) /\ ~IsInputCol(inIdx, i) THEN [k |-> "X"] ELSE rowA.entries[i]]]
       rowB == SetC(blank, Num1)
       rowC == SetC(blank, Num0)
   IN  IF cs = {} THEN cache
